@@ -1,3 +1,75 @@
 (* Properties/C07.v — XML export is well-formed and round-trips the tree.
-   Only statements closed by [exact]; proofs are in Proofs/. *)
-From MP Require Import Common.Base Common.Tree Common.XStr Spec.Xml Model.XmlOut.
+   Only statements closed by [exact]; proofs are in Proofs/C07_*.v.
+   Reading guide: [xparse] (Spec/Xml.v) is the specification parser standing in for a
+   conforming XML parser, "well-formed" = [xparse s <> None]; the precondition class and
+   the relation [sim] (the tree, up to surrounding white space of content and tail) are
+   in Spec/XmlSim.v; [to_xml_top] / [eml_to_xml_top] (Model/XmlOut.v) are the models of
+   metapype_io.to_xml and metapype.eml.export.to_xml. *)
+From MP Require Import Common.Base Common.Tree Common.XStr Spec.Xml Spec.XmlSim Model.XmlOut
+  Proofs.C07_Escape Proofs.C07_Lex Proofs.C07_Parse Proofs.C07_General.
+
+(** Stage 1: escaped text is a sequence of plain characters (no less-than, greater-than or
+    ampersand; in attribute values also no double quote, tab, newline, CR) and references, and
+    the parser's decoders map it back to the original string — for every string. *)
+Theorem escape_clean : forall x, escaped false (escape x).
+Proof. exact escape_clean. Qed.
+Print Assumptions escape_clean.
+
+Theorem escape_attr_clean : forall x, escaped true (escape_attr x).
+Proof. exact escape_attr_clean. Qed.
+Print Assumptions escape_attr_clean.
+
+Theorem escape_no_markup : forall x, ~ In 60%N (escape x) /\ ~ In 62%N (escape x).
+Proof. exact (fun x => conj (escape_no_lt x) (escape_no_gt x)). Qed.
+Print Assumptions escape_no_markup.
+
+Theorem escape_decode : forall x, xtext_decode (escape x) = Some x.
+Proof. exact escape_decode. Qed.
+Print Assumptions escape_decode.
+
+Theorem escape_attr_decode : forall x, xattr_decode (escape_attr x) = Some x.
+Proof. exact escape_attr_decode. Qed.
+Print Assumptions escape_attr_decode.
+
+(** Stage 2: every start tag the general exporter writes (both shapes) is re-lexed to the
+    node's qualified name and exactly the attribute list it carries: attributes, emitted
+    namespace declarations, qualified attributes, in that order. *)
+Theorem C07_lexical : forall parent d rest,
+  lex_ok d ->
+  ptag (tag_of d ++ attr_string parent false d ++ [62%N] ++ rest)
+    = Some (tag_of d, all_attrs parent d, false, rest)
+  /\ ptag (tag_of d ++ attr_string parent false d ++ s "/>" ++ rest)
+    = Some (tag_of d, all_attrs parent d, true, rest).
+Proof. exact C07_lexical_stmt. Qed.
+Print Assumptions C07_lexical.
+
+(** Stage 3: the general exporter.  For every tree over XML-legal names, with prefixes bound
+    in the node's own map to legal namespace names, XML-representable values (text without CR;
+    attribute values: any XML character), well-formed dicts, children that keep their
+    parent's prefixes, and no tail on the root: the output is well-formed and parses back to
+    the same names, prefixes, attributes, qualified attributes, in-scope bindings and child
+    order, content and tail up to leading/trailing white space (mixed content and tails
+    included). *)
+Theorem C07_general : forall t,
+  xml_names t -> prefixes_bound t -> xml_values t -> dicts_wf t -> ns_closed t ->
+  n_tail (ft_d t) = None ->
+  exists x, xparse (to_xml_top t) = Some x /\ sim [] x t.
+Proof. exact C07_general_proof. Qed.
+Print Assumptions C07_general.
+
+(** ... and the parse result is known exactly: [layout] is the tree with the exporter's
+    newline + indentation appended to content and wrapped around tails. *)
+Theorem C07_general_layout : forall t,
+  xml_names t -> prefixes_bound t -> xml_values t -> dicts_wf t -> ns_closed t ->
+  n_tail (ft_d t) = None ->
+  xparse (to_xml_top t) = Some (layout None 0 t []).
+Proof. exact C07_general_exact. Qed.
+Print Assumptions C07_general_layout.
+
+(** the implication is not vacuous *)
+Theorem C07_general_witness :
+  (xml_names witness /\ prefixes_bound witness /\ xml_values witness /\ dicts_wf witness
+   /\ ns_closed witness /\ n_tail (ft_d witness) = None)
+  /\ xparse (to_xml_top witness) <> None.
+Proof. exact (conj witness_in_class witness_parses). Qed.
+Print Assumptions C07_general_witness.
